@@ -1,6 +1,8 @@
-(* Proofs.ExprParse — on the "paren-normal" fragment (every operand of a binary operation is a
-   variable or a parenthesised binary operation, operators + - * / %) the front end of the model
-   (tokens_to_tokens, expression_to_tree) builds the expected tree and fires no tag. *)
+(* Proofs.ExprParse — the front end of the model (tokens_to_tokens, expression_to_tree) on the
+   arithmetic fragment: every tree of + - * / % over variables, written with the parentheses that
+   standard precedence and left associativity require (ExprSpec.render) and any number of
+   redundant ones (EPar).  The shunting-yard builds exactly the tree of the expression
+   (parse_arith): this is the correctness of operator precedence / associativity in the parser. *)
 From Coq Require Import ZArith String List Bool Lia.
 From JMCV Require Import Base.Int32 Base.Dec MC.Syntax Model.Names Model.Expr Model.ExprSpec Model.ExprFront.
 Import ListNotations.
@@ -8,16 +10,14 @@ Open Scope Z_scope.
 
 Definition arith_op (o : binop) : bool := match o with BPow => false | _ => true end.
 
-(* a variable, or a parenthesised binary operation of such operands *)
-Fixpoint pn_atom (e : expr) : bool :=
+(* + - * / % over variables; parentheses anywhere *)
+Fixpoint arith (e : expr) : bool :=
   match e with
   | EVar _ => true
-  | EPar (EBin o a b) => arith_op o && pn_atom a && pn_atom b
+  | EPar e' => arith e'
+  | EBin o a b => arith_op o && arith a && arith b
   | _ => false
   end.
-Definition pn_bin (e : expr) : bool :=
-  match e with EBin o a b => arith_op o && pn_atom a && pn_atom b | _ => false end.
-Definition pn (e : expr) : bool := pn_atom e || pn_bin e.
 
 Section Parse.
   Variable nm : names.
@@ -31,11 +31,14 @@ Section Parse.
     | EBin o a b => mk_expr (opc_of o) (tree_of a) (tree_of b)
     end.
 
+  (* the tokens tokens_to_tokens produces for render e *)
   Fixpoint flat (e : expr) : list ftok :=
+    let ctx (need : nat) (e' : expr) (r : list ftok) :=
+        if Nat.ltb (lvl e') need then FOpen :: r ++ [FClose] else r in
     match e with
     | EVar v => [FVar (score_of nm v)]
     | EPar e' => FOpen :: flat e' ++ [FClose]
-    | EBin o a b => flat a ++ FOp (opc_of o) :: flat b
+    | EBin o a b => ctx (need_l o) a (flat a) ++ FOp (opc_of o) :: ctx (need_r o) b (flat b)
     | _ => []
     end.
 
@@ -63,122 +66,174 @@ Section Parse.
   Definition closed_end (rt : list ftok) : Prop :=
     match rt with [] => False | t :: _ => is_open_operator t = false end.
 
-  Lemma render_atom a : pn_atom a = true ->
-    render a = match a with EVar v => [KVarT v] | EPar e' => [KParen (render e')] | _ => [] end.
-  Proof. destruct a; cbn; try discriminate; reflexivity. Qed.
-
-  Lemma lvl_atom a : pn_atom a = true -> lvl a = 5%nat.
-  Proof. destruct a; cbn; try discriminate; reflexivity. Qed.
-
-  Lemma render_bin o a b : pn_atom a = true -> pn_atom b = true ->
-    render (EBin o a b) = render a ++ [KOp (opc_of o)] ++ render b.
-  Proof.
-    intros Ha Hb. cbn [render]. rewrite (lvl_atom a Ha), (lvl_atom b Hb).
-    destruct o; reflexivity.
-  Qed.
-
-  Lemma closed_after_atom a rt : pn_atom a = true -> closed_end (rev (flat a) ++ rt).
-  Proof.
-    destruct a; cbn; try discriminate; intros _; [exact eq_refl|].
-    rewrite rev_app_distr. cbn. reflexivity.
-  Qed.
-
   Lemma rev_paren (X : list ftok) rt : rev (FOpen :: X ++ [FClose]) ++ rt = FClose :: rev X ++ FOpen :: rt.
   Proof. cbn [rev]. rewrite rev_app_distr. cbn. rewrite <- app_assoc. reflexivity. Qed.
 
-  Definition atom_stmt (a : expr) : Prop :=
+  Definition ttt_stmt (toks : list tok) (fl : list ftok) : Prop :=
     forall rest rt, open_end rt ->
-      ttt_list nm (render a ++ rest) (rt, false) = ttt_list nm rest (rev (flat a) ++ rt, false).
-  Definition bin_stmt (e : expr) : Prop :=
-    forall rest rt, open_end rt ->
-      ttt_list nm (render e ++ rest) (rt, false) = ttt_list nm rest (rev (flat e) ++ rt, false).
+      ttt_list nm (toks ++ rest) (rt, false) = ttt_list nm rest (rev fl ++ rt, false) /\
+      closed_end (rev fl ++ rt).
 
-  Lemma ttt_both e :
-    (pn_atom e = true -> atom_stmt e) /\ (pn_bin e = true -> bin_stmt e).
+  Lemma ttt_stmt_paren toks fl : ttt_stmt toks fl -> ttt_stmt [KParen toks] (FOpen :: fl ++ [FClose]).
   Proof.
-    induction e as [v|z|e IH|e IH|o a IHa b IHb]; split; try (cbn; discriminate).
+    intros H rest rt Hrt. cbn [app ttt_list]. rewrite ttt_paren.
+    destruct (H [] [] I) as [E _]. rewrite app_nil_r in E. rewrite E. cbn [ttt_list].
+    rewrite !bind_ret_l. cbn [fst]. rewrite app_nil_r. rewrite rev_paren. split; reflexivity.
+  Qed.
+
+  Lemma ttt_arith e : arith e = true -> ttt_stmt (render e) (flat e).
+  Proof.
+    induction e as [v|z|e IH|e IH|o a IHa b IHb]; cbn [arith]; try discriminate.
     - (* variable *)
-      intros _ rest rt Hrt. cbn [render app ttt_list].
+      intros _ rest rt Hrt. cbn [render flat app ttt_list rev].
+      split; [|reflexivity].
       destruct rt as [|last rt']; cbn [ttt_tok].
       + rewrite bind_ret_l. reflexivity.
       + cbn in Hrt. rewrite Hrt. rewrite bind_ret_l. reflexivity.
     - (* parenthesis *)
-      intros Hp rest rt Hrt. destruct e as [| | | |o a b]; try (cbn in Hp; discriminate).
-      destruct IH as [_ IH]. specialize (IH Hp).
-      change (render (EPar (EBin o a b))) with [KParen (render (EBin o a b))].
-      cbn [app ttt_list]. rewrite ttt_paren.
-      specialize (IH [] [] I). rewrite app_nil_r in IH. rewrite IH. cbn [ttt_list].
-      rewrite !bind_ret_l. cbn [fst]. rewrite app_nil_r.
-      change (flat (EPar (EBin o a b))) with (FOpen :: flat (EBin o a b) ++ [FClose]).
-      rewrite rev_paren. reflexivity.
+      intros Ha. cbn [render flat]. apply ttt_stmt_paren. now apply IH.
     - (* binary *)
-      intros Hp rest rt Hrt. cbn [pn_bin] in Hp. apply andb_true_iff in Hp. destruct Hp as [Hp Hb].
-      apply andb_true_iff in Hp. destruct Hp as [Ho Ha].
-      destruct IHa as [IHa _], IHb as [IHb _]. specialize (IHa Ha). specialize (IHb Hb).
-      rewrite render_bin by assumption. rewrite <- !app_assoc. rewrite IHa by assumption.
+      intros H. apply andb_true_iff in H. destruct H as [H Hb]. apply andb_true_iff in H. destruct H as [Ho Ha].
+      specialize (IHa Ha). specialize (IHb Hb).
+      cbn [render flat].
+      assert (Ca : ttt_stmt (if Nat.ltb (lvl a) (need_l o) then [KParen (render a)] else render a)
+                            (if Nat.ltb (lvl a) (need_l o) then FOpen :: flat a ++ [FClose] else flat a)).
+      { destruct (Nat.ltb (lvl a) (need_l o)); [now apply ttt_stmt_paren|exact IHa]. }
+      assert (Cb : ttt_stmt (if Nat.ltb (lvl b) (need_r o) then [KParen (render b)] else render b)
+                            (if Nat.ltb (lvl b) (need_r o) then FOpen :: flat b ++ [FClose] else flat b)).
+      { destruct (Nat.ltb (lvl b) (need_r o)); [now apply ttt_stmt_paren|exact IHb]. }
+      set (ta := if Nat.ltb (lvl a) (need_l o) then [KParen (render a)] else render a) in *.
+      set (fa := if Nat.ltb (lvl a) (need_l o) then FOpen :: flat a ++ [FClose] else flat a) in *.
+      set (tb := if Nat.ltb (lvl b) (need_r o) then [KParen (render b)] else render b) in *.
+      set (fb := if Nat.ltb (lvl b) (need_r o) then FOpen :: flat b ++ [FClose] else flat b) in *.
+      intros rest rt Hrt. rewrite <- !app_assoc.
+      destruct (Ca ([KOp (opc_of o)] ++ tb ++ rest) rt Hrt) as [Ea Cla]. rewrite Ea.
       cbn [app ttt_list ttt_tok].
-      pose proof (closed_after_atom a rt Ha) as Hc.
-      destruct (rev (flat a) ++ rt) as [|last rr] eqn:E; [destruct Hc|].
-      cbn in Hc. rewrite Hc, andb_false_r. cbn [orb]. rewrite bind_ret_l.
-      rewrite IHb by (cbn; reflexivity).
-      cbn [flat]. rewrite rev_app_distr. cbn [rev]. rewrite <- !app_assoc. cbn [app]. rewrite <- E.
-      reflexivity.
+      destruct (rev fa ++ rt) as [|last rr] eqn:E; [destruct Cla|].
+      cbn in Cla. rewrite Cla, andb_false_r. cbn [orb]. rewrite bind_ret_l.
+      destruct (Cb rest (FOp (opc_of o) :: last :: rr)) as [Eb Clb]; [reflexivity|].
+      rewrite Eb. rewrite rev_app_distr. cbn [rev]. rewrite <- !app_assoc. cbn [app]. rewrite <- E.
+      split; [reflexivity|]. rewrite E. exact Clb.
   Qed.
 
-  Lemma ttt_pn e : pn e = true -> tokens_to_tokens nm (render e) = (Ok (flat e), []).
+  Lemma ttt_ok e : arith e = true -> tokens_to_tokens nm (render e) = (Ok (flat e), []).
   Proof.
-    unfold pn. intros H. unfold tokens_to_tokens.
-    assert (Hs : ttt_list nm (render e ++ []) ([], false) = ttt_list nm [] (rev (flat e) ++ [], false)).
-    { destruct (pn_atom e) eqn:Ea.
-      - apply (proj1 (ttt_both e) Ea). exact I.
-      - cbn in H. apply (proj2 (ttt_both e) H). exact I. }
-    rewrite !app_nil_r in Hs. rewrite Hs. cbn [ttt_list]. rewrite bind_ret_l. cbn [fst].
-    now rewrite rev_involutive.
+    intros H. unfold tokens_to_tokens.
+    destruct (ttt_arith e H [] [] I) as [E _]. rewrite !app_nil_r in E. rewrite E.
+    cbn [ttt_list]. rewrite bind_ret_l. cbn [fst]. now rewrite rev_involutive.
   Qed.
 
-  (* ---- expression_to_tree *)
-  Definition top_ok (ops : list sitem) : Prop :=
-    match ops with [] => True | SBracket :: _ => True | _ => False end.
+  (* ---- expression_to_tree: operator precedence *)
+  (* lowest precedence of an operator at the top level of (the rendering of) e *)
+  Definition minprec (e : expr) : Z :=
+    match e with EBin o _ _ => op_order (opc_of o) | _ => 30 end.
+  (* everything on top of the stack binds less tightly than p *)
+  Definition guard (p : Z) (ops : list sitem) : Prop :=
+    match ops with [] => True | top :: _ => item_order top < p end.
+  (* an incoming operator (or a closing bracket / the end: None) of precedence at most p *)
+  Definition inc_le (inc : option opc) (p : Z) : Prop :=
+    match inc with None => True | Some i => op_order i <= p /\ left_prec i = true end.
 
-  Lemma ett_both e :
-    (pn_atom e = true -> forall rest ops nums,
-        ett_loop (flat e ++ rest) ops nums = ett_loop rest ops (tree_of e :: nums)) /\
-    (pn_bin e = true -> forall rest ops nums, top_ok ops ->
-        match e with
-        | EBin o a b => ett_loop (flat e ++ rest) ops nums =
-                        ett_loop rest (SOp (opc_of o) :: ops) (tree_of b :: tree_of a :: nums)
-        | _ => True
-        end).
+  (* reading the tokens fl from the stacks (ops, nums) behaves, for everything that can follow an
+     expression whose loosest operator has precedence p, like having pushed the tree t *)
+  Definition ett_stmt (fl : list ftok) (p : Z) (t : num) : Prop :=
+    forall rest ops nums, guard p ops ->
+      exists ops' nums',
+        ett_loop (fl ++ rest) ops nums = ett_loop rest ops' nums' /\
+        forall inc consume, inc_le inc p ->
+          process_stack inc consume ops' nums' = process_stack inc consume ops (t :: nums).
+
+  Lemma guard_mono p q ops : p <= q -> guard p ops -> guard q ops.
+  Proof. destruct ops as [|top ops]; cbn; intros; [exact I|lia]. Qed.
+
+  Lemma ett_stmt_paren fl p t : 0 < p -> ett_stmt fl p t -> ett_stmt (FOpen :: fl ++ [FClose]) 30 t.
   Proof.
-    induction e as [v|z|e IH|e IH|o a IHa b IHb]; split; try (cbn; discriminate).
-    - intros _ rest ops nums. reflexivity.
-    - intros Hp rest ops nums. destruct e as [| | | |o a b]; try (cbn in Hp; discriminate).
-      destruct IH as [_ IH]. specialize (IH Hp).
-      change (flat (EPar (EBin o a b))) with (FOpen :: flat (EBin o a b) ++ [FClose]).
-      cbn [app ett_loop]. rewrite <- app_assoc. rewrite (IH _ (SBracket :: ops) nums I).
-      cbn [app ett_loop process_stack].
-      unfold tell_if. rewrite !bind_ret_l. reflexivity.
-    - intros Hp rest ops nums Hops. cbn [pn_bin] in Hp. apply andb_true_iff in Hp. destruct Hp as [Hp Hb].
-      apply andb_true_iff in Hp. destruct Hp as [Ho Ha].
-      destruct IHa as [IHa _], IHb as [IHb _]. specialize (IHa Ha). specialize (IHb Hb).
-      cbn [flat]. rewrite <- app_assoc. rewrite IHa. cbn [app ett_loop].
-      assert (Hstep : (match ops with
-                       | top :: _ => if order_lt (opc_of o) top then process_stack (Some (opc_of o)) false ops (tree_of a :: nums)
-                                     else ret (ops, tree_of a :: nums)
-                       | [] => ret (ops, tree_of a :: nums)
-                       end) = ret (ops, tree_of a :: nums)).
-      { destruct ops as [|[p|] ops']; try reflexivity. destruct Hops. }
-      rewrite Hstep, bind_ret_l. rewrite IHb. reflexivity.
+    intros Hp H rest ops nums _. exists ops, (t :: nums). split; [|reflexivity].
+    cbn [app ett_loop]. rewrite <- app_assoc.
+    destruct (H ([FClose] ++ rest) (SBracket :: ops) nums) as (ops' & nums' & E & Q); [exact Hp|].
+    rewrite E. cbn [app ett_loop]. rewrite (Q None true I). cbn [process_stack]. rewrite bind_ret_l. reflexivity.
   Qed.
 
-  Lemma ett_pn e : pn e = true -> expression_to_tree (flat e) = (Ok (tree_of e), []).
+  Lemma minprec_pos e : 0 < minprec e.
+  Proof. destruct e as [| | | |o a b]; cbn; try lia. destruct o; cbn; lia. Qed.
+
+  Lemma minprec_arith o a b : arith_op o = true ->
+    minprec (EBin o a b) = 10 \/ minprec (EBin o a b) = 20.
+  Proof. destruct o; cbn; intros; try discriminate; auto. Qed.
+
+  Lemma process_guard i ops nums :
+    guard (op_order i) ops -> process_stack (Some i) false ops nums = ret (ops, nums).
   Proof.
-    unfold pn, expression_to_tree. intros H. destruct (pn_atom e) eqn:Ea.
-    - pose proof (proj1 (ett_both e) Ea [] [] []) as Hs. rewrite app_nil_r in Hs. rewrite Hs.
-      cbn [ett_loop]. rewrite bind_ret_l. cbn [process_stack]. rewrite bind_ret_l. reflexivity.
-    - cbn in H. destruct e as [| | | |o a b]; try discriminate.
-      pose proof (proj2 (ett_both (EBin o a b)) H [] [] [] I) as Hs. rewrite app_nil_r in Hs. rewrite Hs.
-      cbn [ett_loop]. rewrite bind_ret_l. cbn [process_stack]. unfold tell_if. rewrite !bind_ret_l.
-      reflexivity.
+    destruct ops as [|top ops']; [reflexivity|]. cbn [guard]. intros Hg.
+    destruct top as [p| |]; cbn [process_stack]; try reflexivity;
+      unfold order_lt; cbn [item_order] in *;
+      (destruct (op_order i =? _) eqn:E1; [apply Z.eqb_eq in E1; lia|]);
+      (destruct (op_order i <? _) eqn:E2; [apply Z.ltb_lt in E2; lia|]); reflexivity.
+  Qed.
+
+  Lemma process_reduce inc consume o ops l r nums :
+    inc_le inc (op_order o) ->
+    process_stack inc consume (SOp o :: ops) (r :: l :: nums) =
+    process_stack inc consume ops (mk_expr o l r :: nums).
+  Proof.
+    intros Hi. cbn [process_stack item_opc]. destruct inc as [i|]; [|reflexivity].
+    destruct Hi as [Hle Hlp]. unfold order_lt. cbn [item_order]. rewrite Hlp.
+    destruct (op_order i =? op_order o) eqn:E1; [reflexivity|].
+    apply Z.eqb_neq in E1. destruct (op_order i <? op_order o) eqn:E2; [reflexivity|].
+    apply Z.ltb_ge in E2. lia.
+  Qed.
+
+  Lemma inc_le_mono inc p q : p <= q -> inc_le inc p -> inc_le inc q.
+  Proof. destruct inc; cbn; [intros ? [? ?]; split; [lia|assumption]|auto]. Qed.
+
+  Lemma ett_arith e : arith e = true -> ett_stmt (flat e) (minprec e) (tree_of e).
+  Proof.
+    induction e as [v|z|e IH|e IH|o a IHa b IHb]; cbn [arith]; try discriminate.
+    - intros _ rest ops nums _. exists ops, (NVar (score_of nm v) :: nums). split; reflexivity.
+    - intros Ha. cbn [flat tree_of minprec]. apply (ett_stmt_paren _ (minprec e)); [apply minprec_pos|now apply IH].
+    - intros H. apply andb_true_iff in H. destruct H as [H Hb]. apply andb_true_iff in H. destruct H as [Ho Ha].
+      specialize (IHa Ha). specialize (IHb Hb).
+      set (P := op_order (opc_of o)).
+      (* operands in their contexts *)
+      assert (Ca : exists pa, P <= pa /\
+                 ett_stmt (if Nat.ltb (lvl a) (need_l o) then FOpen :: flat a ++ [FClose] else flat a) pa (tree_of a)).
+      { destruct (Nat.ltb (lvl a) (need_l o)) eqn:El.
+        - exists 30. split; [subst P; destruct o; cbn; lia|]. apply (ett_stmt_paren _ (minprec a)); [apply minprec_pos|exact IHa].
+        - exists (minprec a). split; [|exact IHa]. apply Nat.ltb_ge in El. subst P.
+          destruct a as [va| | |ea|oa a1 a2]; cbn [arith] in Ha; try discriminate; cbn [minprec].
+          + destruct o; cbn in Ho |- *; try discriminate; lia.
+          + destruct o; cbn in Ho |- *; try discriminate; lia.
+          + destruct o, oa; cbn in *; try discriminate; try lia. }
+      assert (Cb : exists pb, P < pb /\
+                 ett_stmt (if Nat.ltb (lvl b) (need_r o) then FOpen :: flat b ++ [FClose] else flat b) pb (tree_of b)).
+      { destruct (Nat.ltb (lvl b) (need_r o)) eqn:El.
+        - exists 30. split; [subst P; destruct o; cbn in Ho |- *; try discriminate; lia|]. apply (ett_stmt_paren _ (minprec b)); [apply minprec_pos|exact IHb].
+        - exists (minprec b). split; [|exact IHb]. apply Nat.ltb_ge in El. subst P.
+          destruct b as [vb| | |eb|ob b1 b2]; cbn [arith] in Hb; try discriminate; cbn [minprec].
+          + destruct o; cbn in Ho |- *; try discriminate; lia.
+          + destruct o; cbn in Ho |- *; try discriminate; lia.
+          + destruct o, ob; cbn in *; try discriminate; try lia. }
+      destruct Ca as (pa & Hpa & Sa). destruct Cb as (pb & Hpb & Sb).
+      cbn [flat tree_of minprec]. fold P.
+      set (fa := if Nat.ltb (lvl a) (need_l o) then FOpen :: flat a ++ [FClose] else flat a) in *.
+      set (fb := if Nat.ltb (lvl b) (need_r o) then FOpen :: flat b ++ [FClose] else flat b) in *.
+      intros rest ops nums Hg.
+      assert (HlpO : left_prec (opc_of o) = true) by (destruct o; cbn in Ho |- *; congruence).
+      destruct (Sa (FOp (opc_of o) :: fb ++ rest) ops nums (guard_mono _ _ _ Hpa Hg)) as (opsA & numsA & Ea & Qa).
+      rewrite <- app_assoc. cbn [app]. rewrite Ea. cbn [ett_loop].
+      rewrite (Qa (Some (opc_of o)) false) by (split; [exact Hpa|exact HlpO]).
+      rewrite (process_guard (opc_of o) ops (tree_of a :: nums) Hg), bind_ret_l.
+      destruct (Sb rest (SOp (opc_of o) :: ops) (tree_of a :: nums)) as (opsB & numsB & Eb & Qb); [exact Hpb|].
+      rewrite Eb. exists opsB, numsB. split; [reflexivity|].
+      intros inc consume Hi. rewrite Qb by (apply (inc_le_mono inc P pb); [lia|exact Hi]).
+      now apply process_reduce.
+  Qed.
+
+  Theorem parse_arith e : arith e = true -> expression_to_tree (flat e) = (Ok (tree_of e), []).
+  Proof.
+    intros H. unfold expression_to_tree.
+    destruct (ett_arith e H [] [] [] I) as (ops' & nums' & E & Q). rewrite app_nil_r in E. rewrite E.
+    cbn [ett_loop]. rewrite bind_ret_l. rewrite (Q None false I). cbn [process_stack]. rewrite bind_ret_l.
+    reflexivity.
   Qed.
 End Parse.
